@@ -108,7 +108,7 @@ class Slice:
             if op in ('<<', '>>') and (b < 0 or b > 4096):
                 return None
             if op in ('&', '|', '^', '<<', '>>'):
-                return {'&': a & b, '|': a | b, '^': a ^ b, '<<': a << b, '>>': a >> b}[op]
+                return {'&': lambda: a & b, '|': lambda: a | b, '^': lambda: a ^ b, '<<': lambda: a << b, '>>': lambda: a >> b}[op]()
             return None
         if k == 'Un':
             op = n.get('op', '')
